@@ -9,6 +9,7 @@ CONSTANTS
   Tos = {"victimBare", "victimFull", "domain", "absent"}
   Stanzas <- CoreStanzas
   MaxPending = 2
+  MaxRetry = 0
   MaxHist = 5
 CONSTRAINT Bound
 ACTION_CONSTRAINT EmitBehaviour
